@@ -11,12 +11,15 @@
     toData_toFunsor_roundtrip(')         to_data(to_funsor(x)) = x up to leading size-1 batch axes
     toData_sem / toData_sem_idx          to_data for ANY injective name_to_dim: shape and value at every index
     roundtrip_sem                        pointwise round trip as a corollary of toFunsor_sem + toData_sem
+    toFunsor_toData_roundtrip            to_funsor(to_data(x, name_to_dim), output, inverse) = x pointwise, any injective map
     perm_eq_inverse_iff_involution       permutation vs inverse agree iff involution; 3-cycle witness
     align_sem                            Tensor.align: inputs order, sizes, value at every point
     alignTensor_sem                      align_tensor (permute, un-squeeze, expand): value at every point
     alignTensors_sem / binaryT_sem       align_tensors: union order, per-tensor value, broadcast shape; eager binary op
     materialize_sem / materialize_eval_sem   substituting aranges (then evaluating eagerly) = the lazy term's denotation
     alignT_denote                        lazy Align / Align.align / Contraction.align: identity on the denoted function
+    alignT_keyset / alignT_keys_full     ... keep the set of inputs; with all names given, .inputs order = names exactly
+    alignT_partial_lazy                  partial names on a lazy non-tensor term: wrapper dropped, order unchanged
     deltaAlign_perm / deltaAlign_keys    Delta.align only reorders the terms, into exactly the order `names`
 -/
 import FunsorVerif.Model.C19
@@ -1283,6 +1286,8 @@ theorem materialize_sem (ofNat : Nat → α) (ops : Nat → α → α → α) (r
   | .binary op l r => by
       simp only [Term.materialize, Term.denote, materialize_sem ofNat ops renv env l,
         materialize_sem ofNat ops renv env r]
+  | .slice n a b c d => by
+      simp [Term.materialize, Term.denote, sliceTensor, Tensor.atEnv, Tensor.keys]
 
 /-- Free bounded-integer variables of a term. -/
 def intVars : Term α → List String
@@ -1290,6 +1295,7 @@ def intVars : Term α → List String
   | .rvar _ => []
   | .tensor _ => []
   | .binary _ l r => intVars l ++ intVars r
+  | .slice n _ _ _ _ => [n]
 
 /-- After `materialize` no lazy integer input is left. -/
 theorem materialize_intVars (ofNat : Nat → α) : ∀ (t : Term α), intVars (t.materialize ofNat) = []
@@ -1298,6 +1304,7 @@ theorem materialize_intVars (ofNat : Nat → α) : ∀ (t : Term α), intVars (t
   | .tensor _ => rfl
   | .binary _ l r => by
       simp [Term.materialize, intVars, materialize_intVars ofNat l, materialize_intVars ofNat r]
+  | .slice _ _ _ _ _ => rfl
 
 /-- The arange tensor is well formed and is the identity on its index. -/
 theorem arange_sem (ofNat : Nat → α) (n : String) (s : Nat) (env : String → Nat) :
@@ -2523,6 +2530,12 @@ def TermOK (sz : String → Nat) : Term α → Prop
   | .rvar _ => False
   | .tensor t => TensorOK sz t
   | .binary _ l r => TermOK sz l ∧ TermOK sz r
+  | .slice n a b c _ => sliceSize a b c = sz n
+
+theorem sliceTensor_ok (ofNat : Nat → α) (sz : String → Nat) (n : String) (a b c d : Nat)
+    (h : sliceSize a b c = sz n) : TensorOK sz (sliceTensor ofNat n a b c d) := by
+  refine ⟨?_, ?_, ?_, ?_⟩ <;>
+    simp [sliceTensor, Tensor.WF, Tensor.sizes, Tensor.outShape, Tensor.keys, SizedI, h]
 
 theorem arange_ok (ofNat : Nat → α) (sz : String → Nat) (n : String) :
     TensorOK sz (arange ofNat n (sz n)) := by
@@ -2532,19 +2545,25 @@ theorem arange_ok (ofNat : Nat → α) (sz : String → Nat) (n : String) :
     tensor whose value at every named point is the term's denotation. -/
 theorem eval_sem (ofNat : Nat → α) (ops : Nat → α → α → α) (renv : String → α)
     (sz : String → Nat) : ∀ (t : Term α), TermOK sz t → intVars t = [] →
-    ∃ T, t.eval ops = some T ∧ TensorOK sz T ∧
+    ∃ T, t.eval ops = some T ∧ TensorOK sz T ∧ T.inputs = t.inputs ∧
       ∀ env, (∀ n, env n < sz n) → T.atEnv env [] = t.denote ofNat ops renv env
   | .var n s, _, hv => by simp [intVars] at hv
+  | .slice n a b c d, _, hv => by simp [intVars] at hv
   | .rvar n, h, _ => by simp [TermOK] at h
-  | .tensor t, h, _ => ⟨t, rfl, h, fun _ _ => rfl⟩
+  | .tensor t, h, _ => ⟨t, rfl, h, rfl, fun _ _ => rfl⟩
   | .binary op l r, h, hv => by
       simp only [intVars, List.append_eq_nil_iff] at hv
-      obtain ⟨L, hL, hLok, hLv⟩ := eval_sem ofNat ops renv sz l h.1 hv.1
-      obtain ⟨R, hR, hRok, hRv⟩ := eval_sem ofNat ops renv sz r h.2 hv.2
-      obtain ⟨T, hT, _, hTok, hTv⟩ := binaryT_sem sz (ops op) L R hLok hRok
-      refine ⟨T, by simp [Term.eval, hL, hR, hT], hTok, ?_⟩
-      intro env henv
-      rw [hTv env henv, hLv env henv, hRv env henv]; rfl
+      obtain ⟨L, hL, hLok, hLi, hLv⟩ := eval_sem ofNat ops renv sz l h.1 hv.1
+      obtain ⟨R, hR, hRok, hRi, hRv⟩ := eval_sem ofNat ops renv sz r h.2 hv.2
+      obtain ⟨T, hT, hTi, hTok, hTv⟩ := binaryT_sem sz (ops op) L R hLok hRok
+      refine ⟨T, by simp [Term.eval, hL, hR, hT], hTok, ?_, ?_⟩
+      · have : unionInputs [L, R] = oupdate L.inputs R.inputs := by
+          have := fromPairs_nodup L.inputs hLok.2.1
+          simp only [fromPairs] at this
+          simp [unionInputs, this]
+        rw [hTi, this, hLi, hRi]; rfl
+      · intro env henv
+        rw [hTv env henv, hLv env henv, hRv env henv]; rfl
 
 theorem materialize_ok (ofNat : Nat → α) (sz : String → Nat) : ∀ (t : Term α), TermOK sz t →
     TermOK sz (t.materialize ofNat)
@@ -2554,17 +2573,31 @@ theorem materialize_ok (ofNat : Nat → α) (sz : String → Nat) : ∀ (t : Ter
   | .rvar n, h => by simp [TermOK] at h
   | .tensor t, h => h
   | .binary op l r, h => ⟨materialize_ok ofNat sz l h.1, materialize_ok ofNat sz r h.2⟩
+  | .slice n a b c d, h => by
+      simp only [TermOK] at h
+      simp only [Term.materialize, TermOK]; exact sliceTensor_ok ofNat sz n a b c d h
 
-/-- **materialize_eval_sem.**  `materialize` followed by eager evaluation yields a ground tensor
-    denoting exactly the original lazy term: substituting index ranges for the lazy integer inputs
-    leaves the denoted function unchanged. -/
+/-- `materialize` does not change the declared inputs (names, sizes, order). -/
+theorem materialize_inputs (ofNat : Nat → α) : ∀ (t : Term α),
+    (t.materialize ofNat).inputs = t.inputs
+  | .var _ _ => rfl
+  | .rvar _ => rfl
+  | .tensor _ => rfl
+  | .slice _ _ _ _ _ => rfl
+  | .binary _ l r => by
+      simp only [Term.materialize, Term.inputs, materialize_inputs ofNat l, materialize_inputs ofNat r]
+
+/-- **materialize_eval_sem.**  `materialize` (Variable ↦ arange tensor, Slice(start, stop, step) ↦
+    the arithmetic-progression tensor `start + step * arange(size)`) followed by eager evaluation
+    yields a ground tensor that (i) has exactly the lazy term's declared inputs — same names, same
+    sizes, same order — and (ii) denotes exactly the original lazy term at every named point. -/
 theorem materialize_eval_sem (ofNat : Nat → α) (ops : Nat → α → α → α) (renv : String → α)
     (sz : String → Nat) (t : Term α) (h : TermOK sz t) :
-    ∃ T, (t.materialize ofNat).eval ops = some T ∧ TensorOK sz T ∧
+    ∃ T, (t.materialize ofNat).eval ops = some T ∧ TensorOK sz T ∧ T.inputs = t.inputs ∧
       ∀ env, (∀ n, env n < sz n) → T.atEnv env [] = t.denote ofNat ops renv env := by
-  obtain ⟨T, hT, hok, hv⟩ := eval_sem ofNat ops renv sz (t.materialize ofNat)
+  obtain ⟨T, hT, hok, hi, hv⟩ := eval_sem ofNat ops renv sz (t.materialize ofNat)
     (materialize_ok ofNat sz t h) (materialize_intVars ofNat t)
-  exact ⟨T, hT, hok, fun env henv => by rw [hv env henv, materialize_sem]⟩
+  exact ⟨T, hT, hok, by rw [hi, materialize_inputs], fun env henv => by rw [hv env henv, materialize_sem]⟩
 
 /-! ### lazy alignment is the identity on the denoted function -/
 
@@ -2746,6 +2779,637 @@ theorem deltaAlign_keys {β : Type} (terms r : List (String × β)) (names : Lis
         refine List.Perm.eq_of_pairwise ?_ hs1 hs2 hperm
         intro a b ha hb h1 h2
         exact pos_inj_of_mem names a b (hperm.mem_iff.mp ha) hb (Nat.le_antisymm h1 h2)
+
+
+/-! ### to_funsor ∘ to_data: the converse round trip -/
+
+theorem mapM_congr_opt {β γ : Type} (f g : β → Option γ) : ∀ (l : List β),
+    (∀ x ∈ l, f x = g x) → l.mapM f = l.mapM g
+  | [], _ => rfl
+  | a :: l, h => by
+      rw [List.mapM_cons, List.mapM_cons, h a (by simp),
+        mapM_congr_opt f g l (fun x hx => h x (by simp [hx]))]
+
+theorem lookup_zip_none {κ β : Type} [DecidableEq κ] (k : κ) : ∀ (K : List κ) (V : List β),
+    k ∉ K → lookup k (K.zip V) = none
+  | [], _, _ => by simp [lookup]
+  | _ :: _, [], _ => by simp [lookup]
+  | a :: K, v :: V, h => by
+      simp only [List.mem_cons, not_or] at h
+      have : ¬ a = k := fun e => h.1 e.symm
+      simp only [List.zip_cons_cons, lookup, this, if_false]
+      exact lookup_zip_none k K V h.2
+
+theorem lookup_zip_getElem {κ β : Type} [DecidableEq κ] : ∀ (K : List κ) (V : List β) (i : Nat)
+    (hi : i < K.length) (hv : i < V.length), K.Nodup → lookup K[i] (K.zip V) = some V[i]
+  | [], _, _, hi, _, _ => by simp at hi
+  | _ :: _, [], _, _, hv, _ => by simp at hv
+  | a :: K, v :: V, 0, _, _, _ => by simp [lookup]
+  | a :: K, v :: V, i + 1, hi, hv, hn => by
+      simp only [List.nodup_cons] at hn
+      have hi' : i < K.length := by simpa using hi
+      have : ¬ a = K[i] := fun e => hn.1 (e ▸ List.getElem_mem _)
+      simp only [List.zip_cons_cons, List.getElem_cons_succ, lookup, this, if_false]
+      exact lookup_zip_getElem K V i hi' (by simpa using hv) hn.2
+
+theorem mapM_lookup_zip {κ β : Type} [DecidableEq κ] : ∀ (K : List κ) (V : List β),
+    K.Nodup → K.length = V.length → K.mapM (fun k => lookup k (K.zip V)) = some V
+  | [], [], _, _ => rfl
+  | [], _ :: _, _, h => by simp at h
+  | _ :: _, [], _, h => by simp at h
+  | a :: K, v :: V, hn, hl => by
+      simp only [List.nodup_cons] at hn
+      rw [List.mapM_cons]
+      have e : K.mapM (fun k => lookup k ((a :: K).zip (v :: V))) = K.mapM (fun k => lookup k (K.zip V)) :=
+        mapM_congr_opt _ _ K (fun x hx => by
+          have : ¬ a = x := fun e => hn.1 (e ▸ hx)
+          simp [lookup, this])
+      rw [e, mapM_lookup_zip K V hn.2 (by simpa using hl)]
+      simp [lookup]
+
+/-- Names of the `n` axes starting at dim `off`. -/
+def namesFrom (d2n : List (Int × String)) : Int → Nat → List (Option String)
+  | _, 0 => []
+  | off, n + 1 => lookup off d2n :: namesFrom d2n (off + 1) n
+
+theorem map_range'_namesFrom (d2n : List (Int × String)) (c : Int) : ∀ (n s : Nat),
+    (List.range' s n).map (fun (j : Nat) => lookup ((j : Int) + c) d2n) = namesFrom d2n ((s : Int) + c) n
+  | 0, _ => rfl
+  | n + 1, s => by
+      simp only [List.range'_succ, List.map_cons, namesFrom, List.cons.injEq, true_and]
+      rw [map_range'_namesFrom d2n c n (s + 1)]
+      congr 1; push_cast; omega
+
+theorem axisNames_eq_namesFrom (d2n : List (Int × String)) (nb : Nat) :
+    axisNames d2n nb = namesFrom d2n (-(nb : Int)) nb := by
+  have := map_range'_namesFrom d2n (-(nb : Int)) nb 0
+  simp only [Int.natCast_zero, Int.zero_add] at this
+  rw [← this, axisNames, List.range_eq_range']
+  apply List.map_congr_left
+  intro j _
+  rw [Int.sub_eq_add_neg]
+
+/-- The axes rebuilt by `to_funsor` from the array `to_data` produced: every non-trivial axis is
+    named, the index `to_funsor` reads is the index `to_data` wrote, and every packed input is the
+    input requested on its dim. -/
+theorem rebuilt_axes (d2n : List (Int × String)) (env : String → Nat) (h g0 : Int → Nat)
+    (U : List Int) (hnone : ∀ d, d ∉ U → lookup d d2n = none)
+    (hsome : ∀ d ∈ U, ∃ k, lookup d d2n = some k) :
+    ∀ (n : Nat) (off : Int) (S : List Int), S.Pairwise (· < ·) →
+    (∀ d ∈ S, off ≤ d ∧ d < off + n) → (∀ d, off ≤ d → (d ∈ S ↔ d ∈ U)) →
+    AllNamed ((namesFrom d2n off n).zip (axAllSizes (buildAx h g0 off n S))) ∧
+    ((∀ d ∈ U, dimVal d2n env d < h d) →
+      bidx env ((namesFrom d2n off n).zip (axAllSizes (buildAx h g0 off n S)))
+        = axAllIdx (buildAx h (dimVal d2n env) off n S)) ∧
+    ∀ p ∈ packedSpec ((namesFrom d2n off n).zip (axAllSizes (buildAx h g0 off n S))),
+      ∃ d ∈ S, lookup d d2n = some p.1 ∧ p.2 = h d
+  | 0, off, S, _, _, _ => by
+      simp [namesFrom, buildAx, axAllSizes, AllNamed, bidx, axAllIdx, packedSpec]
+  | n + 1, off, [], hs, hbd, hm => by
+      have ih := rebuilt_axes d2n env h g0 U hnone hsome n (off + 1) [] (by simp) (by simp)
+        (fun d hd => hm d (by omega))
+      have hoff : lookup off d2n = none := hnone off (fun hu => by
+        have := (hm off (Int.le_refl _)).mpr hu; simp at this)
+      simp only [namesFrom, buildAx, axAllSizes, List.map_cons, List.zip_cons_cons, hoff] at ih ⊢
+      refine ⟨?_, ?_, ?_⟩
+      · intro p hp
+        simp only [List.mem_cons] at hp
+        rcases hp with rfl | hp
+        · intro _; rfl
+        · exact ih.1 p hp
+      · intro hb
+        simp only [bidx, axAllIdx, List.map_cons, Bool.false_eq_true, if_false]
+        have := ih.2.1 hb; simp only [axAllIdx] at this; rw [this]
+      · simpa [packedSpec] using ih.2.2
+  | n + 1, off, d :: S, hs, hbd, hm => by
+      simp only [List.pairwise_cons] at hs
+      have hd0 := hbd d (by simp)
+      by_cases hd : d = off
+      · -- a requested axis
+        have hbd' : ∀ x ∈ S, off + 1 ≤ x ∧ x < off + 1 + n := by
+          intro x hx
+          have h1 := hs.1 x hx
+          have h2 := hbd x (by simp [hx])
+          push_cast at h2; omega
+        have hm' : ∀ x, off + 1 ≤ x → (x ∈ S ↔ x ∈ U) := by
+          intro x hx
+          rw [← hm x (by omega)]
+          simp only [List.mem_cons]
+          constructor
+          · exact Or.inr
+          · rintro (h | h)
+            · omega
+            · exact h
+        have ih := rebuilt_axes d2n env h g0 U hnone hsome n (off + 1) S hs.2 hbd' hm'
+        have hdU : d ∈ U := (hm d (by omega)).mp (by simp)
+        simp only [namesFrom, buildAx, hd, if_true, axAllSizes, List.map_cons, List.zip_cons_cons] at ih ⊢
+        rw [hd] at hdU
+        cases hl : lookup off d2n with
+        | none =>
+          obtain ⟨k, hk⟩ := hsome off hdU
+          rw [hl] at hk; cases hk
+        | some nm =>
+          refine ⟨?_, ?_, ?_⟩
+          · intro p hp
+            simp only [List.mem_cons] at hp
+            rcases hp with rfl | hp
+            · intro hnn; simp at hnn
+            · exact ih.1 p hp
+          · intro hb
+            have hlt := hb off hdU
+            simp only [dimVal, hl] at hlt
+            simp only [bidx, axAllIdx, List.map_cons, if_true, dimVal, hl]
+            have := ih.2.1 hb; simp only [axAllIdx] at this; rw [this]
+            congr 1
+            by_cases h1 : h off = 1
+            · simp only [h1, ne_eq, not_true_eq_false, if_false]; omega
+            · simp only [ne_eq, h1, not_false_eq_true, if_true]
+          · intro p hp
+            simp only [packedSpec] at hp
+            by_cases h1 : h off = 1
+            · simp only [h1, ne_eq, not_true_eq_false, if_false] at hp
+              obtain ⟨x, hx, hx2⟩ := ih.2.2 p hp
+              exact ⟨x, by simp [hx], hx2⟩
+            · simp only [ne_eq, h1, not_false_eq_true, if_true, List.mem_cons] at hp
+              rcases hp with rfl | hp
+              · exact ⟨off, by simp [hd], hl, rfl⟩
+              · obtain ⟨x, hx, hx2⟩ := ih.2.2 p hp
+                exact ⟨x, by simp [hx], hx2⟩
+      · -- a filler axis
+        have hbd' : ∀ x ∈ d :: S, off + 1 ≤ x ∧ x < off + 1 + n := by
+          intro x hx
+          simp only [List.mem_cons] at hx
+          rcases hx with rfl | hx
+          · push_cast at hd0; omega
+          · have h1 := hs.1 x hx
+            have h2 := hbd x (by simp [hx])
+            push_cast at h2; omega
+        have ih := rebuilt_axes d2n env h g0 U hnone hsome n (off + 1) (d :: S)
+          (by simp only [List.pairwise_cons]; exact hs) hbd' (fun x hx => hm x (by omega))
+        have hoffS : off ∉ d :: S := by
+          intro hmem
+          have := hbd' off hmem; omega
+        have hoff : lookup off d2n = none := hnone off (fun hu => hoffS ((hm off (Int.le_refl _)).mpr hu))
+        simp only [namesFrom, buildAx, hd, if_false, axAllSizes, List.map_cons, List.zip_cons_cons, hoff] at ih ⊢
+        refine ⟨?_, ?_, ?_⟩
+        · intro p hp
+          simp only [List.mem_cons] at hp
+          rcases hp with rfl | hp
+          · intro _; rfl
+          · exact ih.1 p hp
+        · intro hb
+          simp only [bidx, axAllIdx, List.map_cons, Bool.false_eq_true, if_false]
+          have := ih.2.1 hb; simp only [axAllIdx] at this; rw [this]
+        · simpa [packedSpec] using ih.2.2
+
+
+theorem packed_ne_one : ∀ (l : List (Option String × Nat)), ∀ p ∈ packedSpec l, p.2 ≠ 1
+  | [], p, h => by simp [packedSpec] at h
+  | (none, s) :: l, p, h => packed_ne_one l p (by simpa [packedSpec] using h)
+  | (some n, s) :: l, p, h => by
+      by_cases hs : s = 1
+      · exact packed_ne_one l p (by simpa [packedSpec, hs] using h)
+      · simp only [packedSpec, ne_eq, hs, not_false_eq_true, if_true, List.mem_cons] at h
+        rcases h with rfl | h
+        · exact hs
+        · exact packed_ne_one l p h
+
+/-- **toFunsor_toData_roundtrip.**  For a well-formed tensor `x` with distinct input names and ANY
+    assignment `U` of pairwise distinct negative dims to its inputs (`name_to_dim = zip keys U`),
+    `to_funsor(to_data(x, name_to_dim), x.output, dim_to_name)` with the inverse map
+    `dim_to_name = zip U keys` succeeds, keeps the dtype, has only inputs of `x` (those of size ≠ 1,
+    now in dim order) and equals `x` at every named point and event index. -/
+theorem toFunsor_toData_roundtrip (x : Tensor α) (U : List Int) (hwf : x.WF) (hK : x.keys.Nodup)
+    (hin : x.inputs ≠ []) (hU : U.Nodup) (hneg : ∀ d ∈ U, d < 0)
+    (hlen : U.length = x.inputs.length) :
+    ∃ r f2, toData x (some (x.keys.zip U)) = .ok r ∧
+      toFunsor r (some x.outShape) x.dtype (some (U.zip x.keys)) = .ok f2 ∧
+      f2.dtype = x.dtype ∧ (∀ p ∈ f2.inputs, p ∈ x.inputs ∧ p.2 ≠ 1) ∧
+      ∀ env ev, (∀ p ∈ x.inputs, env p.1 < p.2) → inb x.outShape ev = true →
+        f2.atEnv env ev = x.atEnv env ev := by
+  have hklen : x.keys.length = U.length := by simp [Tensor.keys, hlen]
+  have hslen : x.sizes.length = U.length := by simp [Tensor.sizes, hlen]
+  generalize hd2n : U.zip x.keys = d2n
+  have hmapM : x.keys.mapM (fun k => lookup k (x.keys.zip U)) = some U :=
+    mapM_lookup_zip x.keys U hK hklen
+  have hn2dneg : ∀ p ∈ x.keys.zip U, p.2 < 0 := fun p hp => hneg p.2 (List.of_mem_zip hp).2
+  obtain ⟨r, d0, rest, hSd, hr, hshape, hval⟩ :=
+    toData_sem x (x.keys.zip U) hwf hin hn2dneg U hmapM hU
+  generalize hh : sizeAt U x.sizes = h at *
+  have hsz : U.map h = x.sizes := by rw [← hh]; exact map_sizeAt U x.sizes hU hslen.symm
+  -- facts about the sorted dims
+  have hS := sortInts_sorted U hU
+  have hiff : ∀ a, a ∈ sortInts U ↔ a ∈ U := fun a => mem_sortInts a U
+  rw [hSd] at hS hiff hshape hval
+  have hd0neg : d0 < 0 := hneg d0 ((hiff d0).mp (by simp))
+  have hD : ((-d0).toNat : Int) = -d0 := by omega
+  have hbounds : ∀ d ∈ d0 :: rest, d0 ≤ d ∧ d < d0 + ((-d0).toNat : Nat) := by
+    intro d hd
+    have hdn := hneg d ((hiff d).mp hd)
+    simp only [List.pairwise_cons] at hS
+    simp only [List.mem_cons] at hd
+    rcases hd with rfl | hd
+    · omega
+    · have := hS.1 d hd; omega
+  -- facts about dim_to_name
+  have hnone : ∀ d, d ∉ U → lookup d d2n = none := fun d hd => by
+    rw [← hd2n]; exact lookup_zip_none d U x.keys hd
+  have hget : ∀ i (hi : i < U.length), lookup U[i] d2n = some (x.keys[i]'(by omega)) := fun i hi => by
+    rw [← hd2n]; exact lookup_zip_getElem U x.keys i hi (by omega) hU
+  have hsome : ∀ d ∈ U, ∃ k, lookup d d2n = some k := fun d hd => by
+    obtain ⟨i, hi, rfl⟩ := List.getElem_of_mem hd
+    exact ⟨_, hget i hi⟩
+  have hd2nne : d2n ≠ [] := by
+    rw [← hd2n]
+    cases hU' : U with
+    | nil => rw [hU'] at hlen; exact absurd (List.eq_nil_of_length_eq_zero hlen.symm) hin
+    | cons u us =>
+      cases hk : x.keys with
+      | nil => rw [hU', hk] at hklen; simp at hklen
+      | cons k ks => simp
+  have hd2nneg : ∀ p ∈ d2n, p.1 < 0 := fun p hp => by
+    rw [← hd2n] at hp; exact hneg p.1 (List.of_mem_zip hp).1
+  have hd2ninj : (d2n.map (·.2)).Nodup := by
+    rw [← hd2n, List.map_snd_zip (by omega)]; exact hK
+  -- the batch shape to_data produced
+  generalize hbs : axAllSizes (buildAx h (fun _ => 0) d0 (-d0).toNat (d0 :: rest)) = bs at *
+  have hbslen : bs.length = (-d0).toNat := by
+    rw [← hbs]; simp only [axAllSizes, List.length_map]
+    exact (buildAx_spec _ _ (-d0).toNat d0 (d0 :: rest) hS hbounds).1
+  have hrshape : r.shape = bs ++ x.outShape := by rw [← hbs]; exact hshape (fun _ => 0)
+  have hnames : axisNames d2n bs.length = namesFrom d2n d0 (-d0).toNat := by
+    rw [axisNames_eq_namesFrom, hbslen, hD, Int.neg_neg]
+  have hmaps : ∀ env : String → Nat, U.map (dimVal d2n env) = x.keys.map env := by
+    intro env
+    apply List.ext_getElem
+    · simp [hklen]
+    · intro i h1 h2
+      have hi : i < U.length := by simpa using h1
+      simp only [List.getElem_map, dimVal, hget i hi]
+  have hbdim : ∀ env : String → Nat, (∀ p ∈ x.inputs, env p.1 < p.2) →
+      ∀ d ∈ U, dimVal d2n env d < h d := by
+    intro env henv
+    exact bounded_of_maps U x.inputs _ h env (by rw [hmaps env]; simp [Tensor.keys])
+      (by rw [hsz]; rfl) henv
+  have haxes := fun env => rebuilt_axes d2n env h (fun _ => 0) U hnone hsome
+    (-d0).toNat d0 (d0 :: rest) hS hbounds (fun d _ => hiff d)
+  have hl : (axisNames d2n bs.length).zip bs
+      = (namesFrom d2n d0 (-d0).toNat).zip (axAllSizes (buildAx h (fun _ => 0) d0 (-d0).toNat (d0 :: rest))) := by
+    rw [hnames, hbs]
+  -- packed inputs are inputs of x
+  have hpacked : ∀ p ∈ packedSpec ((axisNames d2n bs.length).zip bs), p ∈ x.inputs ∧ p.2 ≠ 1 := by
+    intro p hp
+    refine ⟨?_, packed_ne_one _ p hp⟩
+    rw [hl] at hp
+    obtain ⟨d, hd, hlk, hp2⟩ := (haxes (fun _ => 0)).2.2 p hp
+    obtain ⟨i, hi, rfl⟩ := List.getElem_of_mem ((hiff _).mp hd)
+    have hi' : i < x.inputs.length := by omega
+    rw [hget i hi] at hlk
+    have e1 : x.keys[i]'(by omega) = x.inputs[i].1 := by simp [Tensor.keys]
+    have e2 : h U[i] = x.inputs[i].2 := by
+      have := List.getElem_of_eq hsz (i := i) (by simpa using hi)
+      simpa [Tensor.sizes] using this
+    have : p = x.inputs[i] := Prod.ext (by rw [← Option.some.inj hlk, e1]) (by rw [hp2, e2])
+    rw [this]; exact List.getElem_mem _
+  obtain ⟨f2, hf2, hf2i, hf2d, _, hsem⟩ := toFunsor_sem r bs x.outShape x.dtype d2n hd2nne hd2nneg
+    hrshape (by rw [hl]; exact (haxes (fun _ => 0)).1)
+    (packed_nodup_of_consistent _ _ _ (consistent_axisNames d2n hd2ninj bs))
+  refine ⟨r, f2, hr, hf2, hf2d, by rw [hf2i]; exact hpacked, ?_⟩
+  intro env ev henv hev
+  rw [hsem env ev (fun p hp => henv p ((hpacked p (hf2i ▸ hp)).1)) hev, hl,
+    (haxes env).2.1 (hbdim env henv), hval (dimVal d2n env) ev (hbdim env henv) hev, hmaps env]
+  rfl
+
+
+/-! ### the ORDER of the inputs after `align` on lazy terms -/
+
+theorem keys_oset : ∀ (d : Inputs) (k : String) (v : Nat),
+    (oset d k v).map (·.1) = if k ∈ d.map (·.1) then d.map (·.1) else d.map (·.1) ++ [k]
+  | [], k, v => by simp [oset]
+  | (k', v') :: d, k, v => by
+      simp only [oset]
+      by_cases hk : k' = k
+      · simp [hk]
+      · have ih := keys_oset d k v
+        have hk' : ¬ k = k' := fun e => hk e.symm
+        simp only [hk, if_false, List.map_cons, ih, List.mem_cons, hk', false_or]
+        split <;> simp
+
+/-- Key sequence of `d.update(e)`: the keys of `d`, then the new keys of `e` in order. -/
+theorem keys_oupdate : ∀ (e d : Inputs), (e.map (·.1)).Nodup →
+    (oupdate d e).map (·.1) = d.map (·.1) ++ (e.map (·.1)).filter (fun k => decide (k ∉ d.map (·.1)))
+  | [], d, _ => by simp [oupdate]
+  | (k, v) :: e, d, he => by
+      simp only [List.map_cons, List.nodup_cons] at he
+      have hstep : oupdate d ((k, v) :: e) = oupdate (oset d k v) e := by simp [oupdate]
+      rw [hstep, keys_oupdate e _ he.2, keys_oset]
+      by_cases hk : k ∈ d.map (·.1)
+      · simp only [hk, if_true, List.map_cons, List.filter_cons, not_true_eq_false, decide_false,
+          Bool.false_eq_true, if_false]
+      · simp only [hk, if_false, List.map_cons, List.filter_cons, not_false_eq_true, decide_true,
+          if_true, List.append_assoc, List.singleton_append]
+        congr 2
+        apply List.filter_congr
+        intro a ha
+        have : a ≠ k := fun e' => he.1 (e' ▸ ha)
+        simp [this]
+
+theorem nodup_keys_oset (d : Inputs) (k : String) (v : Nat) (h : (d.map (·.1)).Nodup) :
+    ((oset d k v).map (·.1)).Nodup := by
+  rw [keys_oset]
+  split
+  · exact h
+  · rename_i hk
+    rw [List.nodup_append]
+    exact ⟨h, by simp, fun a ha b hb => by simp only [List.mem_singleton] at hb; rintro rfl; exact hk (hb ▸ ha)⟩
+
+theorem nodup_keys_oupdate : ∀ (e d : Inputs), (d.map (·.1)).Nodup → ((oupdate d e).map (·.1)).Nodup
+  | [], d, h => by simpa [oupdate] using h
+  | (k, v) :: e, d, h => by
+      have hstep : oupdate d ((k, v) :: e) = oupdate (oset d k v) e := by simp [oupdate]
+      rw [hstep]; exact nodup_keys_oupdate e _ (nodup_keys_oset d k v h)
+
+theorem mem_keys_oupdate : ∀ (e d : Inputs) (a : String),
+    a ∈ (oupdate d e).map (·.1) ↔ a ∈ d.map (·.1) ∨ a ∈ e.map (·.1)
+  | [], d, a => by simp [oupdate]
+  | (k, v) :: e, d, a => by
+      have hstep : oupdate d ((k, v) :: e) = oupdate (oset d k v) e := by simp [oupdate]
+      rw [hstep, mem_keys_oupdate e _ a, keys_oset]
+      by_cases hk : k ∈ d.map (·.1)
+      · simp only [hk, if_true, List.map_cons, List.mem_cons]
+        constructor
+        · rintro (h | h)
+          · exact Or.inl h
+          · exact Or.inr (Or.inr h)
+        · rintro (h | h | h)
+          · exact Or.inl h
+          · exact Or.inl (h ▸ hk)
+          · exact Or.inr h
+      · simp only [hk, if_false, List.mem_append, List.mem_singleton, List.map_cons, List.mem_cons,
+          List.not_mem_nil, or_false]
+        constructor
+        · rintro ((h | h) | h)
+          · exact Or.inl h
+          · exact Or.inr (Or.inl h)
+          · exact Or.inr (Or.inr h)
+        · rintro (h | h | h)
+          · exact Or.inl (Or.inl h)
+          · exact Or.inl (Or.inr h)
+          · exact Or.inr h
+
+/-- Key sequence of the inputs `Align(arg, names)` / `Tensor.align` build: `names`, then the
+    remaining keys in their old order. -/
+theorem keys_alignInputs (I : Inputs) (names : List String) (hI : (I.map (·.1)).Nodup)
+    (hn : names.Nodup) (hsub : ∀ n ∈ names, n ∈ I.map (·.1)) :
+    (oupdate (fromPairs (names.filterMap fun n => (lookup n I).map fun s => (n, s))) I).map (·.1)
+      = names ++ (I.map (·.1)).filter (fun k => decide (k ∉ names)) := by
+  obtain ⟨hPk, _⟩ := namePairs_spec I names hsub
+  generalize (names.filterMap fun n => (lookup n I).map fun s => (n, s)) = P at *
+  have hfp : (fromPairs P).map (·.1) = names := by
+    unfold fromPairs
+    rw [keys_oupdate P [] (by rw [hPk]; exact hn), hPk]
+    simp
+  rw [keys_oupdate I _ hI, hfp]
+
+/-- Tensor leaves have distinct input names. -/
+def KeysOK : LTerm α → Prop
+  | .var _ _ => True
+  | .tensor t => t.keys.Nodup
+  | .binary _ l r => KeysOK l ∧ KeysOK r
+  | .align t _ => KeysOK t
+  | .contract _ _ _ l r => KeysOK l ∧ KeysOK r
+
+theorem keysOK_of_leavesOK : ∀ (t : LTerm α), LeavesOK t → KeysOK t
+  | .var _ _, _ => trivial
+  | .tensor _, h => h.2.1
+  | .binary _ l r, h => ⟨keysOK_of_leavesOK l h.1, keysOK_of_leavesOK r h.2⟩
+  | .align t _, h => keysOK_of_leavesOK t h
+  | .contract _ _ _ l r, h => ⟨keysOK_of_leavesOK l h.1, keysOK_of_leavesOK r h.2⟩
+
+theorem nodup_filter_keys (I : Inputs) (p : String × Nat → Bool) (h : (I.map (·.1)).Nodup) :
+    ((I.filter p).map (·.1)).Nodup := h.sublist (List.Sublist.map _ List.filter_sublist)
+
+/-- The inputs of any lazy term have distinct names. -/
+theorem keys_nodup : ∀ (t : LTerm α), KeysOK t → t.keys.Nodup
+  | .var n s, _ => by simp [LTerm.keys, LTerm.inputs]
+  | .tensor t, h => h
+  | .binary _ l r, h => nodup_keys_oupdate _ _ (keys_nodup l h.1)
+  | .align t names, _ => nodup_keys_oupdate _ _ (nodup_keys_oupdate _ _ (by simp))
+  | .contract _ _ rv l r, h => nodup_keys_oupdate _ _ (nodup_filter_keys _ _ (keys_nodup l h.1))
+
+theorem sameSet_iff (a b : List String) : sameSet a b = true ↔ ∀ x, x ∈ a ↔ x ∈ b := by
+  simp only [sameSet, Bool.and_eq_true, List.all_eq_true, decide_eq_true_eq]
+  constructor
+  · rintro ⟨h1, h2⟩ x; exact ⟨h1 x, h2 x⟩
+  · intro h; exact ⟨fun x hx => (h x).mp hx, fun x hx => (h x).mpr hx⟩
+
+/-- The key SET of an `Align` node is that of its argument. -/
+theorem keyset_align (t : LTerm α) (old : List String) (a : String) :
+    a ∈ (LTerm.align t old).keys ↔ a ∈ t.keys := by
+  simp only [LTerm.keys, LTerm.inputs, mem_keys_oupdate, fromPairs]
+  constructor
+  · rintro ((h | h) | h)
+    · simp at h
+    · simp only [List.mem_map, List.mem_filterMap] at h
+      obtain ⟨p, ⟨n, _, hn⟩, rfl⟩ := h
+      cases hl : lookup n t.inputs with
+      | none => simp [hl] at hn
+      | some s =>
+        simp only [hl, Option.map_some, Option.some.injEq] at hn
+        subst hn
+        exact List.mem_map_of_mem (f := (·.1)) (lookup_mem n s t.inputs hl)
+    · exact h
+  · exact Or.inr
+
+/-- Keys of `Align(u, names)` when `names` are all the names of `u`: exactly `names`. -/
+theorem keys_align_full (u : LTerm α) (names : List String) (hu : u.keys.Nodup) (hn : names.Nodup)
+    (hs : ∀ x, x ∈ names ↔ x ∈ u.keys) : (LTerm.align u names).keys = names := by
+  simp only [LTerm.keys, LTerm.inputs]
+  rw [keys_alignInputs u.inputs names hu hn (fun n h => (hs n).mp h)]
+  have : (u.inputs.map (·.1)).filter (fun k => decide (k ∉ names)) = [] := by
+    rw [List.filter_eq_nil_iff]; intro a ha; simp [(hs a).mpr ha]
+  rw [this, List.append_nil]
+
+
+theorem mkAlign_props (u t' : LTerm α) (names : List String) (h : mkAlign u names = some t') :
+    (KeysOK u → KeysOK t') ∧ ∀ a, a ∈ t'.keys ↔ a ∈ u.keys := by
+  unfold mkAlign at h
+  split at h
+  · cases h
+  · split at h <;> cases h
+    · exact ⟨fun hk => hk, keyset_align u names⟩
+    · exact ⟨fun hk => hk, fun _ => Iff.rfl⟩
+
+theorem funsorAlign_props (u t' : LTerm α) (names : List String) (h : funsorAlign u names = some t') :
+    (KeysOK u → KeysOK t') ∧ ∀ a, a ∈ t'.keys ↔ a ∈ u.keys := by
+  unfold funsorAlign at h
+  split at h
+  · cases h; exact ⟨fun hk => hk, fun _ => Iff.rfl⟩
+  · exact mkAlign_props u t' names h
+
+theorem mkAlign_full (u t' : LTerm α) (names : List String) (hu : u.keys.Nodup) (hn : names.Nodup)
+    (hs : ∀ x, x ∈ names ↔ x ∈ u.keys) (h : mkAlign u names = some t') : t'.keys = names := by
+  unfold mkAlign at h
+  split at h
+  · cases h
+  · rw [if_pos ((sameSet_iff _ _).mpr hs)] at h
+    cases h
+    exact keys_align_full u names hu hn hs
+
+theorem funsorAlign_full (u t' : LTerm α) (names : List String) (hu : u.keys.Nodup) (hn : names.Nodup)
+    (hs : ∀ x, x ∈ names ↔ x ∈ u.keys) (h : funsorAlign u names = some t') : t'.keys = names := by
+  unfold funsorAlign at h
+  split at h
+  · rename_i he
+    cases h
+    simp only [Bool.or_eq_true, List.isEmpty_iff, decide_eq_true_eq] at he
+    rcases he with he | he
+    · subst he
+      cases hk : u.keys with
+      | nil => rfl
+      | cons a as => have := (hs a).mpr (by simp [hk]); simp at this
+    · exact he.symm
+  · exact mkAlign_full u t' names hu hn hs h
+
+theorem keyset_contract (rop bop : Nat) (rv : Inputs) (l r : LTerm α) (a : String) :
+    a ∈ (LTerm.contract rop bop rv l r).keys ↔
+      (a ∈ l.keys ∨ a ∈ r.keys) ∧ a ∉ rv.map (·.1) := by
+  show a ∈ (oupdate (l.inputs.filter fun p => decide (p.1 ∉ rv.map (·.1)))
+    (r.inputs.filter fun p => decide (p.1 ∉ rv.map (·.1)))).map (·.1) ↔ _
+  rw [mem_keys_oupdate]
+  simp only [LTerm.keys, List.mem_map, List.mem_filter, decide_eq_true_eq]
+  constructor
+  · rintro (⟨p, ⟨hp, hnr⟩, rfl⟩ | ⟨p, ⟨hp, hnr⟩, rfl⟩)
+    · exact ⟨Or.inl ⟨p, hp, rfl⟩, hnr⟩
+    · exact ⟨Or.inr ⟨p, hp, rfl⟩, hnr⟩
+  · rintro ⟨⟨p, hp, rfl⟩ | ⟨p, hp, rfl⟩, hnr⟩
+    · exact Or.inl ⟨p, ⟨hp, hnr⟩, rfl⟩
+    · exact Or.inr ⟨p, ⟨hp, hnr⟩, rfl⟩
+
+/-- `x.align(names)` keeps the SET of inputs (and distinct names at the leaves). -/
+theorem alignT_keyset : ∀ (t : LTerm α) (names : List String) (t' : LTerm α), LeavesOK t →
+    names.Nodup → t.alignT names = some t' → KeysOK t' ∧ ∀ a, a ∈ t'.keys ↔ a ∈ t.keys
+  | .var n s, names, t', hok, _, h => by
+      have := funsorAlign_props _ t' names h; exact ⟨this.1 trivial, this.2⟩
+  | .binary op l r, names, t', hok, _, h => by
+      have := funsorAlign_props _ t' names h
+      exact ⟨this.1 (keysOK_of_leavesOK _ hok), this.2⟩
+  | .tensor t, names, t', hok, hn, h => by
+      simp only [LTerm.alignT] at h
+      cases ha : t.align names with
+      | error e => simp [ha] at h
+      | ok t2 =>
+        simp only [ha, Option.some.injEq] at h
+        subst h
+        have hsub : ∀ n ∈ names, n ∈ t.keys := by
+          by_cases hall : (names.all fun n => decide (n ∈ t.keys)) = true
+          · intro n hn'; simpa using (List.all_eq_true.mp hall) n hn'
+          · simp [Tensor.align, hall] at ha
+        obtain ⟨t3, h3, hk3, hm3, _, _, _⟩ := align_sem t names hok.1 hok.2.1 hn hsub
+        rw [ha] at h3
+        cases h3
+        refine ⟨?_, ?_⟩
+        · show t2.keys.Nodup
+          rw [hk3, List.nodup_append]
+          refine ⟨hn, hok.2.1.sublist List.filter_sublist, ?_⟩
+          intro a ha' b hb
+          simp only [List.mem_filter, decide_eq_true_eq] at hb
+          rintro rfl; exact hb.2 ha'
+        · intro a
+          simp only [LTerm.keys, LTerm.inputs, List.mem_map]
+          constructor
+          · rintro ⟨p, hp, rfl⟩; exact ⟨p, (hm3 p).mp hp, rfl⟩
+          · rintro ⟨p, hp, rfl⟩; exact ⟨p, (hm3 p).mpr hp, rfl⟩
+  | .align u old, names, t', hok, hn, h => by
+      simp only [LTerm.alignT] at h
+      obtain ⟨hk, hs⟩ := alignT_keyset u names t' hok hn h
+      exact ⟨hk, fun a => (hs a).trans (keyset_align u old a).symm⟩
+  | .contract rop bop rv l r, names, t', hok, hn, h => by
+      simp only [LTerm.alignT] at h
+      split at h
+      · cases h
+      · cases hl : l.alignT (names.filter (· ∈ l.keys)) with
+        | none => simp [hl] at h
+        | some l' =>
+          cases hr : r.alignT (names.filter (· ∈ r.keys)) with
+          | none => simp [hl, hr] at h
+          | some r' =>
+            simp only [hl, hr] at h
+            obtain ⟨hlk, hls⟩ := alignT_keyset l _ l' hok.1 (hn.sublist List.filter_sublist) hl
+            obtain ⟨hrk, hrs⟩ := alignT_keyset r _ r' hok.2 (hn.sublist List.filter_sublist) hr
+            have hres : ∀ a, a ∈ (LTerm.contract rop bop rv l' r').keys ↔
+                a ∈ (LTerm.contract rop bop rv l r).keys := by
+              intro a; rw [keyset_contract, keyset_contract, hls a, hrs a]
+            split at h
+            · cases h; exact ⟨⟨hlk, hrk⟩, hres⟩
+            · obtain ⟨hk, hs⟩ := mkAlign_props _ t' names h
+              exact ⟨hk ⟨hlk, hrk⟩, fun a => (hs a).trans (hres a)⟩
+
+/-- **alignT_keys_full** — the order gate, theorem-backed.  When `names` lists all the inputs of a
+    lazy term (any order, no repeats), `x.align(names)` returns a term whose `.inputs` are in
+    exactly the order `names` — for `Tensor.align`, the `Align` wrapper, `Align.align`, and
+    `Contraction.align` (which re-aligns its operands and wraps the result if needed). -/
+theorem alignT_keys_full : ∀ (t : LTerm α) (names : List String) (t' : LTerm α), LeavesOK t →
+    names.Nodup → (∀ x, x ∈ names ↔ x ∈ t.keys) → t.alignT names = some t' → t'.keys = names
+  | .var n s, names, t', hok, hn, hs, h =>
+      funsorAlign_full _ t' names (keys_nodup (LTerm.var n s) trivial) hn hs h
+  | .binary op l r, names, t', hok, hn, hs, h =>
+      funsorAlign_full _ t' names (keys_nodup (LTerm.binary op l r) (keysOK_of_leavesOK _ hok)) hn hs h
+  | .tensor t, names, t', hok, hn, hs, h => by
+      simp only [LTerm.alignT] at h
+      cases ha : t.align names with
+      | error e => simp [ha] at h
+      | ok t2 =>
+        simp only [ha, Option.some.injEq] at h
+        subst h
+        obtain ⟨t3, h3, hk3, _⟩ := align_sem t names hok.1 hok.2.1 hn (fun n hn' => (hs n).mp hn')
+        rw [ha] at h3
+        cases h3
+        show t2.keys = names
+        rw [hk3]
+        have : t.keys.filter (fun k => decide (k ∉ names)) = [] := by
+          rw [List.filter_eq_nil_iff]; intro a ha'; simp [(hs a).mpr ha']
+        rw [this, List.append_nil]
+  | .align u old, names, t', hok, hn, hs, h => by
+      simp only [LTerm.alignT] at h
+      exact alignT_keys_full u names t' hok hn
+        (fun x => (hs x).trans (keyset_align u old x)) h
+  | .contract rop bop rv l r, names, t', hok, hn, hs, h => by
+      have h0 := h
+      simp only [LTerm.alignT] at h
+      split at h
+      · cases h
+      · cases hl : l.alignT (names.filter (· ∈ l.keys)) with
+        | none => simp [hl] at h
+        | some l' =>
+          cases hr : r.alignT (names.filter (· ∈ r.keys)) with
+          | none => simp [hl, hr] at h
+          | some r' =>
+            simp only [hl, hr] at h
+            obtain ⟨hlk, hls⟩ := alignT_keyset l _ l' hok.1 (hn.sublist List.filter_sublist) hl
+            obtain ⟨hrk, hrs⟩ := alignT_keyset r _ r' hok.2 (hn.sublist List.filter_sublist) hr
+            split at h
+            · rename_i he; cases h; exact he.symm
+            · refine mkAlign_full _ t' names (keys_nodup (LTerm.contract rop bop rv l' r') ⟨hlk, hrk⟩) hn ?_ h
+              intro x
+              rw [hs x, keyset_contract, keyset_contract, hls x, hrs x]
+
+/-- Partial `names` on a lazy (non-tensor) term: `eager_align` drops the wrapper, so the order of
+    the inputs is unchanged (the value is unchanged by `alignT_denote`). -/
+theorem alignT_partial_lazy (u : LTerm α) (names : List String)
+    (hu : (∃ n s, u = .var n s) ∨ ∃ op l r, u = .binary op l r)
+    (hsub : ∀ n ∈ names, n ∈ u.keys) (hne : names ≠ []) (hns : ¬ ∀ x, x ∈ names ↔ x ∈ u.keys) :
+    u.alignT names = some u := by
+  have hnk : names ≠ u.keys := fun e => hns (fun x => by rw [e])
+  have hss : sameSet names u.keys = false := by
+    cases hc : sameSet names u.keys with
+    | false => rfl
+    | true => exact absurd ((sameSet_iff _ _).mp hc) hns
+  have hall : (names.all fun n => decide (n ∈ u.keys)) = true := by
+    rw [List.all_eq_true]; intro n hn; exact decide_eq_true (hsub n hn)
+  have hemp : names.isEmpty = false := by cases names <;> simp_all
+  rcases hu with ⟨n, s, rfl⟩ | ⟨op, l, r, rfl⟩ <;>
+    simp [LTerm.alignT, funsorAlign, mkAlign, hnk, hss, hall, hemp]
 
 
 /-- `output=None`: the event shape is inferred from the leftmost key of `dim_to_name`, after which
